@@ -159,7 +159,27 @@ class Explorer:
         return bm
 
     # -------------------------------------------------------------- memory
+    # ---- members of a private helper struct held in a field of the connection are addressed as (virtual) fields of the
+    #      connection itself (facts.flatten_gc_structs): one spelling for `self.quota.limit`, however it is reached
+    def flat_path(self, root, path):
+        fl = getattr(self.F, "flat", None)
+        if fl and root == ("self",) and len(path) >= 2 and path[0][0] == "f" and path[1][0] == "f" and (path[0][1], path[1][1]) in fl:
+            n_, nm_ = fl[(path[0][1], path[1][1])]
+            return (("f", n_, nm_),) + tuple(path[2:])
+        return path
+
+    def flat_whole(self, root, path):
+        fs = getattr(self.F, "flat_struct", None)
+        if fs and root == ("self",) and len(path) == 1 and path[0][0] == "f" and path[0][1] in fs:
+            return fs[path[0][1]]
+        return None
+
     def read_loc(self, st, root, path):
+        if root == ("self",) and getattr(self.F, "flat", None):
+            path = self.flat_path(root, path)
+            wh = self.flat_whole(root, path)
+            if wh is not None:
+                return ("agg", wh["adt"], wh["variant"], tuple(self.read_loc(st, root, (("f", n_, nm_),)) for (j_, n_, nm_) in wh["members"]))
         h = st.heap
         key = (root, path)
         if key in h:
@@ -184,7 +204,31 @@ class Explorer:
                 return v
         return SYM(("init", root, path))
 
+    def flat_writes(self, st, root, path, val):
+        """[(path, value)] a write to (root, path) amounts to, in terms of virtual fields."""
+        if root == ("self",) and getattr(self.F, "flat", None):
+            path = self.flat_path(root, path)
+            wh = self.flat_whole(root, path)
+            if wh is not None:
+                out = []
+                for (j_, n_, nm_) in wh["members"]:
+                    if val[0] == "agg" and j_ < len(val[3]):
+                        v_ = val[3][j_]
+                    elif val[0] == "sym":
+                        v_ = SYM(self.cap(("field", val[1], j_)))
+                    else:
+                        v_ = SYM(("field", val, j_))
+                    out.append(((("f", n_, nm_),), v_))
+                return out
+        return [(path, val)]
+
     def write_loc(self, st, root, path, val):
+        if root == ("self",) and getattr(self.F, "flat", None):
+            ws = self.flat_writes(st, root, path, val)
+            if len(ws) != 1 or ws[0][0] != path:
+                for p_, v_ in ws:
+                    self.write_loc(st, root, p_, v_)
+                return
         h = st.heap
         # drop sub-entries
         for k in [k for k in h if k[0] == root and len(k[1]) > len(path) and k[1][:len(path)] == path]:
@@ -371,7 +415,8 @@ class Explorer:
             return
         root, path = r[1], r[2]
         if root[0] != "L":
-            st.effects.append(("write", root, path, val, site))
+            for p_, v_ in self.flat_writes(st, root, path, val):
+                st.effects.append(("write", root, p_, v_, site))
         self.write_loc(st, root, path, val)
 
     # ----------------------------------------------------------- operands
@@ -646,6 +691,24 @@ class Explorer:
         if k == "agg":
             ops = tuple(self.operand(st, fr, o) for o in rv["ops"])
             if "adt" in rv:
+                fs_ = getattr(self.F, "flat_struct", None)
+                if fs_ and rv["adt"] == "mqtt::connection::core::GenericConnection":
+                    extra = []
+                    for i_, inf in sorted(fs_.items()):
+                        sv = ops[i_] if i_ < len(ops) else None
+                        for (j_, n_, nm_) in inf["members"]:
+                            if sv is not None and sv[0] == "agg" and j_ < len(sv[3]):
+                                extra.append((n_, sv[3][j_]))
+                            elif sv is not None and sv[0] == "sym":
+                                extra.append((n_, SYM(self.cap(("field", sv[1], j_)))))
+                            else:
+                                extra.append((n_, SYM(("field", sv, j_))))
+                    ops = list(ops)
+                    for n_, v_ in sorted(extra):
+                        while len(ops) < n_:
+                            ops.append(SYM(("novalue",)))
+                        ops.append(v_)
+                    ops = tuple(ops)
                 return AGG(rv["adt"], rv["variant"], ops)
             if rv.get("tuple"):
                 if not ops:
@@ -1277,7 +1340,8 @@ class Explorer:
             ac = tuple(self.intern(a) if isinstance(a, tuple) and term_depth(a) > 4 else a for a in argterms)
             new = SYM(("mut", tag, site, oldc, res, ac))
             if root[0] != "L":
-                st.effects.append(("write", root, path, new, site))
+                for p_, v_ in self.flat_writes(st, root, path, new):
+                    st.effects.append(("write", root, p_, v_, site))
             self.write_loc(st, root, path, new)
 
     def opaque_call(self, st, fr, path, args, dest, site, info):
